@@ -235,6 +235,17 @@ fn watchdog(factor: f64) -> Duration {
     Duration::from_secs_f64(base * factor)
 }
 
+/// Wall-clock budget: MJVERIF_DEADLINE_EPOCH (seconds since the epoch).  Enumerations stop there and say `truncated`.
+fn deadline_passed() -> bool {
+    use std::sync::OnceLock;
+    static DEADLINE: OnceLock<Option<f64>> = OnceLock::new();
+    let d = DEADLINE.get_or_init(|| std::env::var("MJVERIF_DEADLINE_EPOCH").ok().and_then(|s| s.parse::<f64>().ok()));
+    match d {
+        Some(d) => std::time::SystemTime::now().duration_since(std::time::UNIX_EPOCH).map(|n| n.as_secs_f64() > *d).unwrap_or(false),
+        None => false,
+    }
+}
+
 struct RunResult {
     path: Vec<(usize, u32)>,
     trace: Vec<Ev>,
@@ -624,7 +635,7 @@ impl<'a, W: Write> Dfs<'a, W> {
             if p.len() >= self.d && part_of(&p, self.d, self.k) != self.j {
                 continue;
             }
-            if self.emitted >= self.limit {
+            if self.emitted >= self.limit || deadline_passed() {
                 self.truncated = true;
                 return;
             }
@@ -709,11 +720,16 @@ fn main() {
                 let count = next().max(1);
                 let seed = next() as u64;
                 let mut rng = Some(Rng(seed));
+                let mut done = 0;
                 for _ in 0..count {
+                    if deadline_passed() {
+                        break;
+                    }
                     let r = run_one(&cfg, &sched, &mut rng);
                     let _ = writeln!(out, "{}", run_line(&cfg, &r));
+                    done += 1;
                 }
-                let _ = writeln!(out, "END {} 0", count);
+                let _ = writeln!(out, "END {} {}", done, (done < count) as i64);
             }
         }
         let _ = out.flush();
